@@ -609,8 +609,38 @@ func nilObligations(w *World, p *Prog, fns []*ssa.Function, l *obs) {
 				continue // reported at the producer that breaks the contract
 			}
 			var bad []string
+			// loop-carried pairs: `for n, err, ok := next(); ok; n, err, ok = next()` merges the node and its error in
+			// two phis of one block; a test of the error phi speaks for the node phi
+			var errPhis []ssa.Value
+			if errv != nil && v.Referrers() != nil {
+				for _, r := range *v.Referrers() {
+					pn, ok := r.(*ssa.Phi)
+					if !ok {
+						continue
+					}
+					for i, e := range pn.Edges {
+						if e != v {
+							continue
+						}
+						for _, in2 := range pn.Block().Instrs {
+							if pe, ok := in2.(*ssa.Phi); ok && pe != pn && i < len(pe.Edges) && pe.Edges[i] == errv {
+								errPhis = append(errPhis, pe)
+							}
+						}
+					}
+				}
+			}
 			for _, d := range c.unguardedDerefs(v, 0) {
 				if errv != nil && c.contract[cls] && guardedNil(errv, d) {
+					continue
+				}
+				viaPhi := false
+				for _, pe := range errPhis {
+					if c.contract[cls] && guardedNil(pe, d) {
+						viaPhi = true
+					}
+				}
+				if viaPhi {
 					continue
 				}
 				if errv == nil && c.contract[cls] {
